@@ -1,6 +1,7 @@
 import AaVerif.Ref.GrammarLemmas
 import AaVerif.Ref.GrammarPtrace
 import AaVerif.Ref.GrammarSignal
+import AaVerif.Ref.GrammarRlimit
 import AaVerif.Aa.Parse
 import AaVerif.Aa.Sort
 import AaVerif.Generated.AaTables
@@ -241,5 +242,22 @@ example : Ref.read T (renderRule (Aa.Parse.signalRule true false [S "receive", S
         [.l (mergeValues T "signal" "access" [S "receive", S "send"] []), .l (mergeValues T "signal" "set" [S "kill", S "hup"] []),
          .s (S "unconfined")]) :=
   C12_signal_all true false _ _ _ (by simp) (by simp) (by decide +kernel) (by decide +kernel) (by decide)
+
+/-! ## `set rlimit` rules, symbolically: every key of the table, every value the syntax accepts -/
+
+theorem rlimit_key_words : ∀ k ∈ reqValues T "rlimit" "keys", Aa.Parse.CapW k := by decide +kernel
+
+/-- **Every printed `set rlimit` rule**: for every key of the table and every value the reference syntax accepts
+(`infinity`, or an optionally signed number with an optional alphabetic unit) the reader finds key, operator and value -/
+theorem C12_rlimit_all (k v : Text) (hk : k ∈ reqValues T "rlimit" "keys") (hv : Ref.rlimitValueOk v = true) :
+    Ref.read T (renderRule (Aa.Parse.rlimitRule k v) (padOf [])) = some (mkR "rlimit" {} [.s k, .s (S "<="), .s v]) :=
+  read_rlimit T k v (rlimit_key_words k hk) (by simpa using hk) hv
+
+example : Ref.read T (renderRule (Aa.Parse.rlimitRule (S "nofile") (S "65536")) (padOf []))
+    = some (mkR "rlimit" {} [.s (S "nofile"), .s (S "<="), .s (S "65536")]) :=
+  C12_rlimit_all _ _ (by decide +kernel) (by decide +kernel)
+
+example : Ref.rlimitValueOk (S "infinity") = true ∧ Ref.rlimitValueOk (S "8MB") = true ∧ Ref.rlimitValueOk (S "-20") = true
+    ∧ Ref.rlimitValueOk (S "MB") = false := by decide +kernel
 
 end C12
